@@ -228,23 +228,29 @@ def r3_leaf_and_root(ctx, outs, key):
     couts = eng.run(clo)
     ctx.touch(clo)
     rets = [o for o in couts if o.kind == 'return']
-    okroot = False
     found = None
-    # values captured by the root closure, as the parent had them when it built the closure
-    snaps = ()
+    # values captured by the root closure, as the parent had them when it built the closure: one tuple per parent path
+    snapsets = []
     for o in c07.search_outcomes(ctx):
         for e in o.events:
-            if e[0] == 'closure' and e[1] == clo:
-                snaps = e[2]
-    for o in rets:
-        rec = [e for e in o.events if e[0] == 'call' and e[1] == MINIMAX]
-        if len(rec) == 1:
+            if e[0] == 'closure' and e[1] == clo and e[2] not in snapsets:
+                snapsets.append(e[2])
+    verdicts = []
+    for snaps in snapsets or [()]:
+        for o in rets:
+            rec = [e for e in o.events if e[0] == 'call' and e[1] == MINIMAX]
+            if len(rec) != 1:
+                verdicts.append(False)
+                continue
             a = tuple(subst_upvars(x, snaps) for x in rec[0][2])
-            found = [show(x) for x in a[3:]]
             d_ok = a[3][0] == 'bin' and a[3][1] == 'Sub' and a[3][3] == C(1) and any(s[0] == 'call' and s[1].endswith('::search_depth') for s in subterms(a[3]))
-            okroot = d_ok and a[4] == C(I16MIN) and a[5] == C(I16MAX) and a[6][0] == 'un' and a[6][1] == 'Not'
+            ok1 = d_ok and a[4] == C(I16MIN) and a[5] == C(I16MAX) and a[6][0] == 'un' and a[6][1] == 'Not'
             order = [e[1].rsplit('::', 1)[-1] for e in o.events if e[0] == 'call' and e[1] in (MINIMAX, CHESSMOVE + '::apply', CHESSMOVE + '::undo', BOARD + '::toggle_turn')]
-            okroot = okroot and order == ['apply', 'toggle_turn', 'alpha_beta_minimax', 'undo', 'toggle_turn']
+            ok1 = ok1 and order == ['apply', 'toggle_turn', 'alpha_beta_minimax', 'undo', 'toggle_turn']
+            verdicts.append(ok1)
+            if not ok1 or found is None:
+                found = [show(x) for x in a[3:]]
+    okroot = bool(verdicts) and all(verdicts) and bool(rets)
     ctx.ob(rule, clo, 'root child: (search_depth-1, i16::MIN, i16::MAX, !maximising) between apply;toggle and undo;toggle', okroot, found=found,
            expected='(depth - 1, MIN, MAX, !current_player_is_maximizing)')
     # the flag captured is maximize_score(board.turn())
